@@ -10,6 +10,7 @@ pub fn run(id: &str) -> Result<String, String> {
         "F2" => f2(),
         "F6" => f6(),
         "F12" => f12(),
+        "F17" => f17(),
         _ => Err(format!("unknown witness {id}")),
     }
 }
@@ -140,4 +141,29 @@ fn f12() -> Result<String, String> {
         Ok(h) => { let n = r.records(&h).count(); if n == 1 { Ok("\"cases\":1".into()) } else { Err(format!("read back {n} records")) } }
         Err(e) => Err(format!("SAM writer output (default header, QNAME CRAMPUS1) is not recognised as SAM by the generic reader: read_header fails with '{e}'")),
     }
+}
+
+/// F17: the generic variant writer must emit raw BCF for (Bcf, no compression) and BGZF for (Bcf, Bgzf / default).
+fn f17() -> Result<String, String> {
+    use noodles_util::variant::io::{CompressionMethod, Format, writer::Builder};
+    use noodles_vcf as vcf;
+    let header = vcf::Header::default();
+    let emit = |cm: Option<Option<CompressionMethod>>| -> Result<Vec<u8>, String> {
+        let mut buf = Vec::new();
+        {
+            let mut b = Builder::default().set_format(Format::Bcf);
+            if let Some(c) = cm { b = b.set_compression_method(c); }
+            let mut w = b.build_from_writer(&mut buf);
+            w.write_header(&header).map_err(|e| e.to_string())?;
+        }
+        Ok(buf)
+    };
+    let raw = emit(Some(None))?;
+    let gz = emit(Some(Some(CompressionMethod::Bgzf)))?;
+    let dflt = emit(None)?;
+    let is_gz = |b: &[u8]| b.len() >= 2 && b[0] == 0x1f && b[1] == 0x8b;
+    if !raw.starts_with(b"BCF") { return Err(format!("(Bcf, no compression) output starts with {:02x?}, expected the raw BCF magic", &raw[..raw.len().min(4)])); }
+    if !is_gz(&gz) { return Err(format!("(Bcf, Bgzf) output starts with {:02x?}, expected a gzip member", &gz[..gz.len().min(4)])); }
+    if !is_gz(&dflt) { return Err(format!("(Bcf, default compression) output starts with {:02x?}, expected a gzip member", &dflt[..dflt.len().min(4)])); }
+    Ok("\"cases\":3".into())
 }
